@@ -487,6 +487,10 @@ class ConfigWalk:
         """The entries of a dictionary, in the order they are visited"""
         return x.items()
 
+    def pretasks(self, pre_tasks: list):
+        """The pre-tasks of a configuration, in the order they are visited"""
+        return pre_tasks
+
     def __call__(self, x):
         if isinstance(x, Config):
             info = x.__xpm__  # type: ConfigInformation
@@ -519,7 +523,7 @@ class ConfigWalk:
             # Deals with pre-tasks
             if info.pre_tasks:
                 with self.map("__pre_tasks__"):
-                    self(info.pre_tasks)
+                    self(self.pretasks(info.pre_tasks))
 
             if info.init_tasks:
                 with self.map("__init_tasks__"):
@@ -794,6 +798,14 @@ class ConfigInformation:
                 # a configuration shared by two entries is generated under
                 # the smallest key
                 return sorted(x.items(), key=lambda item: item[0])
+
+            def pretasks(self, pre_tasks: list):
+                # As for the identifier, the order in which the pre-tasks were
+                # added does not matter: the position of a pre-task is the
+                # rank of its identifier (the order of execution is unchanged)
+                return sorted(
+                    pre_tasks, key=lambda task: task.__xpm__.raw_identifier.all
+                )
 
             def postprocess(self, stub, config: Config, values):
                 # Generate values
